@@ -93,7 +93,7 @@ def path(ex, t):
         st['res'] = r; st['zinc'] = True
         return st
     if t['mode'] == 'rt':
-        # ANY instant (symbolic calendar fields, years 0000-9999, 0 or 3 fraction digits) with ANY offset the zone's rule may
+        # ANY instant (symbolic calendar fields, years 0000-9999, 0, 3, 6 or 9 fraction digits) with ANY offset the zone's rule may
         # give there (a multiple of 15 minutes between -12:00 and +14:00): the rule table is an uninterpreted function, so the
         # verdict covers every table, i.e. both sides of every transition
         from props.zenc_common import sym_date, sym_time, encode as zenc
@@ -103,7 +103,9 @@ def path(ex, t):
         ex.assume(z3.And(z3.UGE(ch.zz(y), 1980), z3.ULE(ch.zz(y), 2060)))
         ks = t.get('ks') or list(range(105))
         k = ks[ex.pick(len(ks))] - 48          # the offset is forked (its hh:mm text defeats z3 when symbolic), the instant stays symbolic
-        ns = 123000000 if ex.pick(2) else 0
+        # 0, 3, 9 and 6 fraction digits; thorough: all four at 12 offsets (extremes, zero, every 10th), 0 / 9 digits at the other 93
+        NS = (0, 123000000, 123456789, 7000) if (t.get('ks') or (k + 48) in (0, 48, 104) or (k + 48) % 10 == 5) else (0, 123456789)
+        ns = NS[ex.pick(len(NS))]
         v = h.dt(y, mo, d, hh, mi, ss, ns, k * 900, t['id'])
         st['orig'] = v; st['rt'] = True
         if t['codec'] == 'zinc':
